@@ -1726,6 +1726,57 @@ fn stage_aligned_flush(args: &Args) -> Vec<TaskOut> {
     })
 }
 
+/// C01 class "static-dictionary word at the input-block boundary": one meta-block merged from two or more
+/// input blocks (compressible filler, a single PROCESS/FINISH chunk) whose block k ends EXACTLY with a word
+/// of the static dictionary (first occurrence, so the match finder codes it as a dictionary reference),
+/// and whose next block starts by repeating what lies dist_cache_[0] back (a run of the word's last byte,
+/// or a repeat of the filler period): `extend_last_command` then looks at a last command that is a
+/// dictionary reference. Also with the word one byte before / beyond the boundary.
+fn stage_dict_boundary(args: &Args) -> Vec<TaskOut> {
+    use brotli_decompressor::dictionary::{kBrotliDictionary, kBrotliDictionaryOffsetsByLength, kBrotliDictionarySizeBitsByLength};
+    let seed = args.seed;
+    let thorough = args.tier == "thorough";
+    let n = if thorough { 960 } else { 96 };
+    par_tasks(n, move |i| {
+        let mut rng = Rng::new(seed ^ 0xD1C7B ^ ((i as u64) << 20));
+        let mut rep = Report::default();
+        let lines = vec![];
+        if skip_task(i) { return TaskOut { lines, rep }; }
+        set_task(format!("replay: BV_ONLY={} bvh stream c01 --seed {} (dict-boundary stage)", i, seed));
+        let (q, lgb) = *rng.pick(&[(2u32, 14u32), (2, 14), (3, 14), (4, 16), (5, 16), (9, 16)]);
+        let w = if lgb == 16 { 16 } else { *rng.pick(&[16u32, 18, 22]) };
+        let bs = 1usize << lgb;
+        // a dictionary word of 9..24 bytes whose first two bytes differ from the filler byte
+        let word: Vec<u8> = loop {
+            let len = rng.range(9, 24) as usize;
+            let cnt = 1usize << kBrotliDictionarySizeBitsByLength[len];
+            let off = kBrotliDictionaryOffsetsByLength[len] as usize;
+            let k = rng.below(cnt as u64) as usize;
+            let wd = &kBrotliDictionary[off + k * len..off + (k + 1) * len];
+            if wd[0] != b'a' && wd[1] != b'a' { break wd.to_vec(); }
+        };
+        let shift: isize = *rng.pick(&[0isize, 0, 0, 0, -1, 1]);
+        let kblock = 1 + rng.below(2) as usize;
+        let end = (kblock * bs) as isize + shift;
+        let mut v: Vec<u8> = vec![word[0]];
+        let period = *rng.pick(&[1usize, 1, 2, 5]);
+        while (v.len() as isize) < end - word.len() as isize { let j = v.len(); v.push(b'a' + (j % period) as u8); }
+        v.extend_from_slice(&word);
+        let last = *word.last().unwrap();
+        let run = *rng.pick(&[1usize, 2, 3, 8, 40, 300]);
+        for _ in 0..run { v.push(last); }
+        v.extend_from_slice(b" -- and some more text after the boundary, 0123456789.\n");
+        if rng.chance(1, 2) { let el = 200 + rng.below(3000) as usize; let extra = gen_bytes(&mut rng, el, 2); v.extend_from_slice(&extra); }
+        let cfg = simple_cfg(q, w, false, false, 0);
+        let reqs = if rng.chance(1, 2) { vec![Req { op: OP_FINISH, data: v.clone() }] } else { vec![Req { op: OP_PROCESS, data: v.clone() }, Req { op: OP_FINISH, data: vec![] }] };
+        let ro = drive(&cfg, &reqs, &OutSched::ample(), false);
+        rep.count("dict_boundary.cases");
+        rep.count(&format!("dict_boundary.shift{}", shift));
+        judge_plan(&cfg, &ro, &mut rep, true, false);
+        TaskOut { lines, rep }
+    })
+}
+
 fn stage_alloc_big(args: &Args) -> Vec<TaskOut> {
     let seed = args.seed;
     let mut grid: Vec<(u32, u32, usize, bool)> = vec![];
@@ -1964,7 +2015,7 @@ pub fn run_cmd(args: &Args) {
     let mut pre_lines = vec![];
     run_corpus(&mut rep, &mut pre_lines);
     let scale = if thorough { 12 } else { 1 };
-    if which == "c01" || which == "all" { outs.extend(stage_plans(args, 9000 * scale, 0xC01, true, false)); outs.extend(stage_fragments(args, 24 * scale)); outs.extend(stage_ringwrap(args, 24 * scale)); }
+    if which == "c01" || which == "all" { outs.extend(stage_plans(args, 9000 * scale, 0xC01, true, false)); outs.extend(stage_fragments(args, 24 * scale)); outs.extend(stage_ringwrap(args, 24 * scale)); outs.extend(stage_dict_boundary(args)); }
     if which == "c04" || which == "all" { outs.extend(stage_plans(args, 6000 * scale, 0xC04, true, true)); outs.extend(stage_aligned_flush(args)); }
     if which == "c05" || which == "all" { outs.extend(stage_pairs(args, 3500 * scale)); outs.extend(stage_alloc_big(args)); outs.extend(stage_boundary(args)); }
     if which == "c20" || which == "all" {
